@@ -51,6 +51,7 @@ type TermTable struct {
 	ufDecl map[string]string // UF name -> declaration text
 	vars   []*Term
 	shadows *shadowTables
+	nlReal bool // a product or quotient of two non-constant reals exists: queries may be NRA
 }
 
 func NewTermTable() *TermTable {
@@ -164,6 +165,9 @@ func (tt *TermTable) mk(op string, s Sort, w int, args ...*Term) *Term {
 	sb.WriteString(sortKey(s, w))
 	for _, a := range args {
 		fmt.Fprintf(&sb, " %d", a.id)
+	}
+	if s == SReal && len(args) == 2 && !tt.nlReal && ((op == "*" && !args[0].IsConst() && !args[1].IsConst()) || (op == "/" && !args[1].IsConst())) {
+		tt.nlReal = true
 	}
 	return tt.intern(sb.String(), func() *Term { return &Term{op: op, sort: s, w: w, args: args} })
 }
